@@ -54,7 +54,6 @@ ADJUSTED = {
     "stateless_class": set(),
     "lazy_ignores": set(),
     "collection_pipeline": {"collection_pipeline", "collection-pipeline"},
-    "print_statements": {"print_statements", "print-statements", "improper-logging"},
 }
 NOT_SECTIONS = {"project_root", "_project_root"}  # orchestrator-provided entries of the metadata dict, not config sections
 
